@@ -38,7 +38,7 @@ FlagInst(fl) == NormInst(JulToDay(fl[1]), HmsToSec(fl[2]), 0)
 \* the sequential uamiv reader fails when the file's last step ends on another
 \* day than its first step begins (known finding)
 SpansMidnight(c) == EndOf(c, c.nt)[1] # BeginOf(c, 1)[1]
-\* ... and the sequential temperature reader when the two-digit dates wrap (99365 -> 00001)
+\* ... and the sequential temperature and wind readers when the two-digit dates wrap (99365 -> 00001)
 SpansCentury(c) == YYJJJ(BeginOf(c, c.nt)) < YYJJJ(BeginOf(c, 1))
 \* needflags: the reader defines TFLAG (the sequential readers do not)
 ContentDiag(c, names, got, nsteps, needflags) ==
@@ -65,7 +65,7 @@ BlockBytes(cc) == Offset(cc, NHeader(cc) + RecsPerStep(cc)) - HeaderBytes(cc)
 \* the meteorological formats have no header: a prefix made of whole records of
 \* the first time step looks like a complete single-step file with fewer layers
 MetRecBytes(c) == 4 * (2 + c.nx * c.ny) + 8
-HeaderlessFirstStep(c, n) == c.fmt \in MetFmts /\ n > 0 /\ n < BlockBytes(c) /\ n % MetRecBytes(c) = 0
+HeaderlessFirstStep(c, n) == c.fmt \in (MetFmts \ {"wind"}) /\ n > 0 /\ n < BlockBytes(c) /\ n % MetRecBytes(c) = 0
 
 TStep ==
   LET tr == Traces[tid] c == tr.cfg IN
@@ -75,7 +75,7 @@ TStep ==
           \* C09 (direction B): every reader presents exactly the encoded content
           /\ (Prop = "C09" => \A r \in 1..Len(tr.reads) : LET rd == tr.reads[r] IN
                IF rd.res # "ok" /\ rd.reader = "read" /\
-                    ((c.fmt = "uamiv" /\ SpansMidnight(c)) \/ (c.fmt = "temperature" /\ SpansCentury(c)))
+                    ((c.fmt = "uamiv" /\ SpansMidnight(c)) \/ (c.fmt \in {"temperature", "wind"} /\ SpansCentury(c)))
                THEN TrKnown(tr, "C09_K1_sequential_reader_midnight")
                ELSE IF rd.res = "raised" /\ rd.reader = "read" /\ c.fmt \in MetFmts /\ c.nt = 1
                THEN TrKnown(tr, "C09_K2_sequential_met_single_step")
@@ -125,6 +125,10 @@ TStep ==
                       IF o.k = "Steps" THEN o.steps ELSE -1,
                       IF o.n > HeaderBytes(c) /\ (o.n - HeaderBytes(c)) % BlockBytes(c) = 0
                       THEN (o.n - HeaderBytes(c)) \div BlockBytes(c) ELSE -1)
+            /\ (tr.reader = "memmap" /\ c.fmt = "wind") =>
+                  Chk(tr, p, "prefix of " \o ToString(o.n) \o " bytes: outcome differs from the wind reader model",
+                      IF o.k = "Steps" THEN o.steps ELSE -1,
+                      LET w == WindOpenF(c, o.n, FALSE) IN IF w.k = "Steps" THEN w.n ELSE -1)
        [] tr.kind = "bigcuts" ->
           /\ Chk(tr, 1, "reference encoder produced the size the layout states", tr.nbytes, tr.expbytes)
           /\ \A p \in 1..Len(tr.obs) : LET o == tr.obs[p] IN
